@@ -36,6 +36,11 @@ CHECKS = {
         note="Trusted: Lean kernel + [propext, Classical.choice, Quot.sound]; hand-written Model/Pass.lean etc. tied by whole-pipeline correspondence; tools/fontsynth.py emits the binary font and the model's description of it from the same data (a mismatch between the two shows up as a disagreement).",
         technique="Lean 4 theorems (matching = pattern prefixes, precedence order, first passing constraint) on a hand-written executable model of the pass engine + whole-pipeline differential execution on synthesised fonts",
         ref="§6 C06"),
+    "C02": dict(
+        text="Proof (Lean 4 kernel), partial: fsm_stays_in_slot_map - for every font's tables and every glyph stream the state-machine walk writes at most MAX_SLOTS cells of the slot map; insert_respects_budget and pass_range_growth - the insert opcode dies once the pass's budget is used up and a range of passes that returns a segment did not let it outgrow 64 x the slots it started with; code runs by structural recursion over its instruction list (each instruction at most once); stack discipline for specification-defined programs is C07's run_eq_spec. The rule-loop bound maxRuleLoop x (slots + insert budget + 2) is NOT a theorem: it is checked on the implementation's counter (hook GRAPHITE2_VERIF in Pass::runGraphite), and that counter is compared with the model's on every synthesised font. Memory safety, undefined behaviour and leaks in the whole of gr_make_seg / queries / destruction are decided on the implementation under ASan/UBSan/LSan with synthesised fonts (all dir flags, three encodings, ill-formed text), looping state machines driven to the slot-map limit, boundary fonts the loader must refuse, and byte-mutated shipped fonts.",
+        note="Trusted: Lean kernel + [propext, Classical.choice, Quot.sound]; hand-written models tied by correspondence; the hook commit; sanitizers as the oracle for memory safety (finite exploration, labelled as such).",
+        technique="Lean 4 bound theorems on the pass-engine model + hook-based loop counter compared with the model + sanitizer-instrumented execution of synthesised, boundary and mutated fonts",
+        ref="§6 C02"),
     "C11": dict(
         text="Proof (Lean 4 kernel), for all code-unit strings in all three encodings: gr_count_unicode_characters' model never faults on [begin,end) and equals the Unicode specification's scan (Table 3-7/D91/D90) - exact count without error on well-formed text, error reported on ill-formed text, error pointer inside the buffer, count <= well-formed characters before the first ill-formed sequence; NUL-terminated branch never reads past a NUL; get/put inverse on all scalar values; ill-formed sequences swallow only trailing units (resync); the three encodings of a scalar list read back as the same scalars. Decoder tables, limits and toolong thresholds are REGENERATED from UtfCodec.h/.cpp. Model tied to the code by differential execution under ASan: every UTF-8 string of <=3 bytes (exhaustive, 16.8M), boundary-structured longer strings, UTF-16/32 boundary products, gr_make_seg char-infos.",
         note="Trusted: Lean kernel + [propext, Classical.choice, Quot.sound]; extractor for Gen.Utf; hand-written Model/Utf.lean tied by finite differential runs; Spec/Utf.lean validated against Python's strict codecs through the predicate on implementation outputs. Whole-segment equality across encodings is reduced to equality of the decoded scalar list.",
